@@ -19,7 +19,9 @@ def splitFused (k : Nat) (sh : Shell ν) : List (Shell ν) × Shell ν :=
 
 /-- one loop iteration of uncontract_spdf, `acc` = `newshells` so far -/
 def spdfStep (k : Nat) (acc : List (Shell ν)) (sh : Shell ν) : List (Shell ν) :=
-  if sh.am.length > 1 then [(splitFused k sh).2] ++ acc ++ (splitFused k sh).1 else acc ++ [sh]
+  if sh.am.length > 1 then
+    (if (splitFused k sh).2.am = [] then [] else [(splitFused k sh).2]) ++ acc ++ (splitFused k sh).1   -- the remainder only if a member is left in it
+  else acc ++ [sh]
 
 def uncontractSpdf (k : Nat) (shells : List (Shell ν)) : List (Shell ν) :=
   shells.foldl (spdfStep k) []
@@ -51,15 +53,15 @@ theorem funcs_fused (val : ν → Rat) (sh : Shell ν) (h : sh.am.length > 1) :
   rw [List.map_zip_eq_zipWith]
   rfl
 
-/-- membership in the folded list -/
+/-- membership in the folded list (the remainder of a fused shell is there only if a member is left in it) -/
 theorem mem_uncontractSpdf (k : Nat) (shells : List (Shell ν)) (s : Shell ν) :
     s ∈ uncontractSpdf k shells ↔
       ∃ sh ∈ shells, (¬ sh.am.length > 1 ∧ s = sh) ∨
-        (sh.am.length > 1 ∧ (s = (splitFused k sh).2 ∨ s ∈ (splitFused k sh).1)) := by
+        (sh.am.length > 1 ∧ ((s = (splitFused k sh).2 ∧ (splitFused k sh).2.am ≠ []) ∨ s ∈ (splitFused k sh).1)) := by
   unfold uncontractSpdf
   suffices h : ∀ acc, s ∈ shells.foldl (spdfStep k) acc ↔ s ∈ acc ∨
       ∃ sh ∈ shells, (¬ sh.am.length > 1 ∧ s = sh) ∨
-        (sh.am.length > 1 ∧ (s = (splitFused k sh).2 ∨ s ∈ (splitFused k sh).1)) by
+        (sh.am.length > 1 ∧ ((s = (splitFused k sh).2 ∧ (splitFused k sh).2.am ≠ []) ∨ s ∈ (splitFused k sh).1)) by
     simpa using h []
   induction shells with
   | nil => intro acc; simp
@@ -69,19 +71,31 @@ theorem mem_uncontractSpdf (k : Nat) (shells : List (Shell ν)) (s : Shell ν) :
     rw [ih]
     unfold spdfStep
     by_cases ha : a.am.length > 1
-    · simp only [ha, if_true, List.mem_append, List.mem_cons, List.not_mem_nil, or_false,
-        exists_eq_or_imp, not_true_eq_false, false_and, true_and, false_or]
-      constructor
-      · rintro (((h | h) | h) | h)
-        · exact Or.inr (Or.inl (Or.inl h))
-        · exact Or.inl h
-        · exact Or.inr (Or.inl (Or.inr h))
-        · exact Or.inr (Or.inr h)
-      · rintro (h | (h | h) | h)
-        · exact Or.inl (Or.inl (Or.inr h))
-        · exact Or.inl (Or.inl (Or.inl h))
-        · exact Or.inl (Or.inr h)
-        · exact Or.inr h
+    · by_cases hr : (splitFused k a).2.am = []
+      · simp only [ha, hr, if_true, List.nil_append, List.mem_append, List.mem_cons, List.not_mem_nil, or_false,
+          exists_eq_or_imp, not_true_eq_false, false_and, true_and, false_or, ne_eq, and_false]
+        constructor
+        · rintro ((h | h) | h)
+          · exact Or.inl h
+          · exact Or.inr (Or.inl h)
+          · exact Or.inr (Or.inr h)
+        · rintro (h | h | h)
+          · exact Or.inl (Or.inl h)
+          · exact Or.inl (Or.inr h)
+          · exact Or.inr h
+      · simp only [ha, hr, if_true, if_false, List.mem_append, List.mem_cons, List.not_mem_nil, or_false,
+          exists_eq_or_imp, not_true_eq_false, false_and, true_and, false_or, ne_eq, not_false_eq_true, and_true]
+        constructor
+        · rintro (((h | h) | h) | h)
+          · exact Or.inr (Or.inl (Or.inl h))
+          · exact Or.inl h
+          · exact Or.inr (Or.inl (Or.inr h))
+          · exact Or.inr (Or.inr h)
+        · rintro (h | (h | h) | h)
+          · exact Or.inl (Or.inl (Or.inr h))
+          · exact Or.inl (Or.inl (Or.inl h))
+          · exact Or.inl (Or.inr h)
+          · exact Or.inr h
     · simp only [ha, if_false, List.mem_append, List.mem_cons, List.not_mem_nil, or_false,
         exists_eq_or_imp, not_false_eq_true, true_and, false_and]
       constructor
@@ -133,13 +147,20 @@ theorem funcSet_uncontractSpdf (val : ν → Rat) (k : Nat) (shells : List (Shel
     rcases h with ⟨_, rfl⟩ | ⟨hfu, h⟩
     · exact ⟨s, hsh, hf⟩
     · refine ⟨sh, hsh, (hsplit sh hfu).1 ?_⟩
-      rcases h with rfl | h
+      rcases h with ⟨rfl, _⟩ | h
       · exact Or.inl hf
       · exact Or.inr ⟨s, h, hf⟩
   · rintro ⟨sh, hsh, hf⟩
     by_cases hfu : sh.am.length > 1
     · rcases (hsplit sh hfu).2 hf with h | ⟨s, hs, hfs⟩
-      · exact ⟨_, (mem_uncontractSpdf k shells _).2 ⟨sh, hsh, Or.inr ⟨hfu, Or.inl rfl⟩⟩, h⟩
+      · have hne : (splitFused k sh).2.am ≠ [] := by
+          intro h0
+          -- a remainder without momenta has no columns either, hence no functions
+          have hc : (splitFused k sh).2.coefs = [] := by
+            simp only [splitFused] at h0 ⊢
+            simpa using h0
+          simp [Shell.funcs, h0, hc] at h
+        exact ⟨_, (mem_uncontractSpdf k shells _).2 ⟨sh, hsh, Or.inr ⟨hfu, Or.inl ⟨rfl, hne⟩⟩⟩, h⟩
       · exact ⟨s, (mem_uncontractSpdf k shells s).2 ⟨sh, hsh, Or.inr ⟨hfu, Or.inr hs⟩⟩, hfs⟩
     · exact ⟨sh, (mem_uncontractSpdf k shells sh).2 ⟨sh, hsh, Or.inl ⟨hfu, rfl⟩⟩, hf⟩
 
